@@ -204,3 +204,21 @@ func pathLit(p Path) any {
 	}
 	return out
 }
+
+// spRects: B7-lite — subject = two rectangles (both orientations) over L(k), clip = one rectangle.
+// Every edge is axis-aligned: horizontal-edge processing, horizontal joins, touching and nested rings.
+func spRects(e enum.Embed, k, level int) *BoolSpace {
+	r2 := latticeRects(k, true)
+	r1 := latticeRects(k, false)
+	n2, n1 := uint64(len(r2)), uint64(len(r1))
+	return &BoolSpace{Name: fmt.Sprintf("B7r/rect^2 x rect(L%d)/%s", k, e.Name), Level: level, Size: n2 * n2 * n1, E: e,
+		Gen: func(idx uint64, g *genBuf) (Paths, Paths) {
+			g.reset()
+			g.p[0] = embedPath(e, r2[idx%n2], g.p[0])
+			g.p[1] = embedPath(e, r2[(idx/n2)%n2], g.p[1])
+			g.p[2] = embedPath(e, r1[idx/(n2*n2)], g.p[2])
+			g.s = append(g.s, g.p[0], g.p[1])
+			g.c = append(g.c, g.p[2])
+			return g.s, g.c
+		}}
+}
